@@ -288,7 +288,8 @@ def gen_parser_cases(seed, tier, payloads):
                 for g in (data[dl:], bytes(r.randrange(256) for _ in range(min(223 - dl, 12 + r.randint(0, 40)))), b'\xff' * min(223 - dl, 20), b'\x00' * min(223 - dl, 20), b''):
                     cases.append('P %s %d %d %s %s' % (p['name'], pgn, dl, (pre + g).hex() or '-', a))
         if not has_varstr(p):
-            for _ in range(10 if not thorough else 200):
+            paired = any(q['p'] == p['id'] for q in META['pairs'])
+            for _ in range((10 if paired else 110) if not thorough else 400):
                 dl = r.choice([0, 1, 3, 7, 8, 9, 26, 43, r.randint(0, 223)])
                 d = bytes(r.randrange(256) for _ in range(dl))
                 if r.random() < 0.5 and dl >= 4:
